@@ -70,6 +70,14 @@ def ulp_diff(a: float, b: float) -> float:
     return float(abs(key(a) - key(b)))
 
 
+def near(a: float, b: float) -> bool:
+    """Model Float value vs implementation Python float: equal up to a few thousand ulps (1e-12 relative), so that a
+    harmless rewrite of an expression (x**-0.5 vs 1/sqrt(x)) does not break a correspondence."""
+    if a == b or (a != a and b != b):
+        return True
+    return abs(a - b) <= 1e-12 * max(abs(a), abs(b))
+
+
 def rel_close(a: float, b: float, rtol: float) -> bool:
     if a == b:
         return True
